@@ -326,9 +326,17 @@ theorem rt_atom : (a : LAtom) → wfAtom a → ∀ (rest : List Tok), NoCall res
         obtain ⟨tail, ht⟩ := printArgs_head e es
         rw [ht, List.append_assoc]
         exact headOKE_append _ _ (by simpa using (good_expr e hw.2.1 [] trivial).1)
+      have hd : dropLeadComma (printArgs (e :: es) ++ rest) = printArgs (e :: es) ++ rest := by
+        cases hx : printArgs (e :: es) ++ rest with
+        | nil => rfl
+        | cons t r =>
+          rw [hx] at hh
+          cases t with
+          | sym sy => cases sy <;> first | rfl | (simp [headOKE, startOK, isW] at hh)
+          | _ => rfl
       refine ev_intro n1 (fun k hk' => ?_)
       simp only [printAtom, List.cons_append, parseAtom, atomAct_func n _ (ident_not_select n hw.1) hh, hk, Bool.false_eq_true,
-        ↓reduceIte, h1 k hk', embedAtom]
+        ↓reduceIte, hd, h1 k hk', embedAtom]
   | .funcStar n, hw, rest, _ => by
     have hk : isKeyword n = false := by simpa [identOK, wfAtom] using hw
     refine ev_intro 0 (fun k _ => ?_)
